@@ -115,6 +115,10 @@ fail_rwlock_init:
 
 fail_signal_init:
   uv__platform_loop_delete(loop);
+  if (loop->backend_fd != -1) {
+    uv__close(loop->backend_fd);
+    loop->backend_fd = -1;
+  }
 
 fail_platform_init:
   uv_mutex_destroy(&lfields->loop_metrics.lock);
